@@ -444,6 +444,114 @@ def _inline_site(prog: Program, f: FunctionInfo, body, caller: FunctionInfo, cal
         ast.fix_missing_locations(s)
 
 
+def _items_loop_wrapper(f: FunctionInfo):
+    """``def w(self, d, i): <raising guards>; for k, v in d.items(): <raising guards / else:> self.m(k, v, i)``
+    -> (dict parameter, method name, argument template) or None."""
+    params = [a.arg for a in f.node.args.args]
+    if len(params) < 2 or params[0] != "self":
+        return None
+    loops = [s_ for s_ in f.node.body if isinstance(s_, ast.For)]
+    if len(loops) != 1:
+        return None
+    others = [s_ for s_ in f.node.body if not isinstance(s_, ast.For) and not (isinstance(s_, ast.Expr) and isinstance(s_.value, ast.Constant))]
+    # every other statement is a guard that only raises
+    for s_ in others:
+        if not (isinstance(s_, ast.If) and all(isinstance(x, ast.Raise) for x in s_.body) and not s_.orelse):
+            return None
+    lp = loops[0]
+    it = lp.iter
+    if not (isinstance(it, ast.Call) and isinstance(it.func, ast.Attribute) and it.func.attr == "items" and isinstance(it.func.value, ast.Name) and it.func.value.id in params):
+        return None
+    if not (isinstance(lp.target, ast.Tuple) and len(lp.target.elts) == 2 and all(isinstance(e, ast.Name) for e in lp.target.elts)):
+        return None
+    kname, vname = lp.target.elts[0].id, lp.target.elts[1].id
+    calls = [n for n in ast.walk(lp) if isinstance(n, ast.Call) and isinstance(n.func, ast.Attribute) and isinstance(n.func.value, ast.Name) and n.func.value.id == "self"]
+    if len(calls) != 1 or calls[0].keywords:
+        return None
+    # anything else in the loop body must be a raising guard
+    for n in ast.walk(lp):
+        if isinstance(n, (ast.Assign, ast.AugAssign, ast.Return, ast.Break, ast.Continue)):
+            return None
+    c = calls[0]
+    tmpl = []
+    for a in c.args:
+        if isinstance(a, ast.Name) and a.id == kname:
+            tmpl.append("K")
+        elif isinstance(a, ast.Name) and a.id == vname:
+            tmpl.append("V")
+        elif isinstance(a, ast.Name) and a.id in params:
+            tmpl.append(("P", a.id))
+        else:
+            return None
+    return it.func.value.id, c.func.attr, tmpl
+
+
+def expand_dict_wrappers(prog: Program) -> List[str]:
+    """``h.record_iteration({"u": a, "fval": b}, i)`` -> ``h.record("u", a, i); h.record("fval", b, i)`` when the wrapper is a
+    package method that does nothing but loop over ``dict.items()`` and forward (key, value, ...) to another method of the
+    same object (its raising guards aside).  The rules read the individual calls."""
+    done = []
+    for caller in list(prog.functions()):
+        for call, targets in prog.calls_in(caller):
+            fs = [t for t in targets if isinstance(t, FunctionInfo)]
+            if len(fs) != 1 or len(targets) != 1:
+                continue
+            w = _items_loop_wrapper(fs[0])
+            if w is None:
+                continue
+            dparam, meth, tmpl = w
+            b = bind_args(fs[0], call)
+            d = b.get(dparam)
+            dict_stmt = None
+            if isinstance(d, ast.Name):
+                # the literal built in a local that has no other use: rec = {...}; h.record_iteration(rec, i)
+                uses = [n for n in ast.walk(caller.node) if isinstance(n, ast.Name) and n.id == d.id]
+                defs_ = [n for n in ast.walk(caller.node) if isinstance(n, ast.Assign) and len(n.targets) == 1 and isinstance(n.targets[0], ast.Name) and n.targets[0].id == d.id]
+                if len(uses) == 2 and len(defs_) == 1 and isinstance(defs_[0].value, ast.Dict):
+                    dict_stmt = defs_[0]
+                    d = defs_[0].value
+            st = prog.parent(call)
+            if not (isinstance(d, ast.Dict) and all(isinstance(k_, ast.Constant) for k_ in d.keys) and isinstance(st, ast.Expr) and st.value is call and isinstance(call.func, ast.Attribute)):
+                continue
+            blk = _block_of(prog, st)
+            if blk is None:
+                continue
+            new = []
+            for k_, v_ in zip(d.keys, d.values):
+                args = []
+                for t_ in tmpl:
+                    if t_ == "K":
+                        args.append(copy.deepcopy(k_))
+                    elif t_ == "V":
+                        args.append(v_)
+                    else:
+                        a_ = b.get(t_[1])
+                        if a_ is None:
+                            args = None
+                            break
+                        args.append(copy.deepcopy(a_))
+                if args is None:
+                    new = None
+                    break
+                c2 = ast.Call(func=ast.Attribute(value=copy.deepcopy(call.func.value), attr=meth, ctx=ast.Load()), args=args, keywords=[])
+                e2 = ast.Expr(value=c2)
+                ast.copy_location(e2, st)
+                ast.copy_location(c2, v_)
+                new.append(e2)
+            if not new:
+                continue
+            idx = next(i for i, x in enumerate(blk) if x is st)
+            blk[idx:idx + 1] = new
+            if dict_stmt is not None:
+                dblk = _block_of(prog, dict_stmt)
+                if dblk is not None:
+                    dblk[:] = [x for x in dblk if x is not dict_stmt]
+            for e2 in new:
+                ast.fix_missing_locations(e2)
+            done.append(f"{caller.qualname}: {fs[0].name}({{...{len(new)} keys}}) expanded into {meth} calls")
+    return done
+
+
 CONTAINER_ATTRS = {"options", "optim_state", "function_logger", "iteration_history", "var_transf", "variable_transformer", "logger"}
 
 
@@ -583,6 +691,12 @@ def normalise(prog: Program) -> Tuple[Program, List[str]]:
             changed = True
         if not changed:
             break
+        trees = {m.relpath: m.tree for m in prog.modules.values()}
+        prog = Program(prog.root, override_trees=trees)
+    # dict-literal wrappers
+    dw = expand_dict_wrappers(prog)
+    if dw:
+        log += dw
         trees = {m.relpath: m.tree for m in prog.modules.values()}
         prog = Program(prog.root, override_trees=trees)
     # container aliases
